@@ -4,6 +4,7 @@
 //! the kinds that need those features:
 //!   18 (L der)    crypto::tls::certificate::parse on arbitrary DER bytes        -> 1 bound 0
 //!   19 (L bytes)  webrtc extract_framed_message + WebRtcMessage::decode        -> see coq/C19/Glue.v
+//!   25 (L reply)  NoiseContext::with_prologue + first_message + get_remote_peer_id(reply)  -> 1 bound 0 code
 //!   9918          a fresh certificate for the fixed key (seed for the TLS mutations)
 //! Every call runs under catch_unwind with the peak-allocation counter on.
 use std::{
@@ -123,6 +124,28 @@ fn run(c: &[u64]) -> Option<Vec<u64>> {
                 }
             }
             Some(t)
+        }
+        25 => {
+            // the WebRTC Noise path on byte vectors: initiator with a prologue, first message
+            // written, then the remote's reply (u16 length + Noise message) is parsed
+            use litep2p::{config::Role, crypto::verif_webrtc_noise::NoiseContext, error::NegotiationError};
+            let reply = bytes_at(c, 1)?;
+            let kp = litep2p::crypto::ed25519::Keypair::from(litep2p::crypto::ed25519::SecretKey::try_from_bytes([1u8; 32]).ok()?);
+            let (code, peak) = measure(|| {
+                let mut ctx = NoiseContext::with_prologue(&kp, b"libp2p-webrtc-noise:verif".to_vec()).ok()?;
+                ctx.first_message(Role::Dialer).ok()?;
+                Some(match ctx.get_remote_peer_id(&reply) {
+                    Ok(_) => 0u64,
+                    Err(NegotiationError::SnowError(_)) => 1,
+                    Err(NegotiationError::IoError(_)) => 2,
+                    Err(NegotiationError::ParseError(_)) => 3,
+                    Err(NegotiationError::PeerIdMissing) => 4,
+                    Err(NegotiationError::BadSignature) => 5,
+                    Err(_) => 9,
+                })
+            });
+            const NOISE_BOUND: u64 = 2 << 20;
+            Some(vec![1, if peak <= NOISE_BOUND { NOISE_BOUND } else { peak }, 0, code?])
         }
         9918 => {
             let kp = litep2p::crypto::ed25519::Keypair::from(litep2p::crypto::ed25519::SecretKey::try_from_bytes([1u8; 32]).ok()?);
